@@ -385,6 +385,9 @@ AK_CASES = [
     (("xy", "z", "t"), ("Vector4D", ["x", "y", "z", "t"], [])), (("rhophi", "eta", "tau"), ("Vector4D", ["rho", "phi", "eta", "tau"], [])),
     (("xy", "z", "tau"), ("Vector4D", ["x", "y", "z", "tau"], ["mass", "E", "pt"])), (("rhophi", "theta", "t"), ("Vector4D", ["rho", "phi", "theta", "t"], ["M", "px", "pz"])),
     (("xy", "eta", "t"), ("Momentum4D", ["px", "py", "eta", "E"], ["charge"])),
+    # generic records whose EXTRA fields are named like the remaining momentum synonyms (a generic record must ignore every one of them)
+    (("xy", "z", "tau"), ("Vector4D", ["x", "y", "z", "tau"], ["energy", "e", "m", "M"])), (("rhophi", "eta", "t"), ("Vector4D", ["rho", "phi", "eta", "t"], ["E", "e", "energy", "mass", "m"])),
+    (("rhophi", "z", "tau"), ("Vector4D", ["rho", "phi", "z", "tau"], ["px", "py", "E"])), (("xy", "theta", "t"), ("Vector4D", ["x", "y", "theta", "t"], ["pt", "pz", "M"])),
 ]
 
 
